@@ -1,3 +1,59 @@
 package main
 
-func registerOS(eng *Engine) {}
+// Redirection of the os package to the interpreted file system model rt/vfs.go.
+
+import (
+	"golang.org/x/tools/go/ssa"
+)
+
+var osRedirects = map[string]string{
+	"os.OpenFile":              "VOpenFile",
+	"os.Open":                  "VOpen",
+	"os.Create":                "VCreate",
+	"os.CreateTemp":            "VCreateTemp",
+	"os.MkdirTemp":             "VMkdirTemp",
+	"os.Mkdir":                 "VMkdir",
+	"os.MkdirAll":              "VMkdirAll",
+	"os.Stat":                  "VStat",
+	"os.Lstat":                 "VStat",
+	"os.SameFile":              "VSameFile",
+	"os.Remove":                "VRemove",
+	"os.RemoveAll":             "VRemoveAll",
+	"os.Rename":                "VRename",
+	"os.Link":                  "VLink",
+	"os.Chmod":                 "VChmod",
+	"os.ReadDir":               "VReadDir",
+	"os.ReadFile":              "VReadFile",
+	"os.WriteFile":             "VWriteFile",
+	"os.Getwd":                 "VGetwd",
+	"(*os.File).Name":          "VFileName",
+	"(*os.File).Close":         "VFileClose",
+	"(*os.File).Write":         "VFileWrite",
+	"(*os.File).WriteString":   "VFileWriteString",
+	"(*os.File).Read":          "VFileRead",
+	"(*os.File).ReadAt":        "VFileReadAt",
+	"(*os.File).Seek":          "VFileSeek",
+	"(*os.File).Stat":          "VFileStat",
+	"(*os.File).Chmod":         "VFileChmod",
+	"(*os.File).Sync":          "VFileSync",
+	"(*os.File).Truncate":      "VFileTruncate",
+}
+
+func registerOS(eng *Engine) {
+	for from, to := range osRedirects {
+		to := to
+		eng.intrinsics[from] = func(e *Exec, fr *frame, fn *ssa.Function, args []Value) Value {
+			return e.callSSA(fr, e.eng.stdFunc(rtPath, to), args, nil)
+		}
+	}
+	// unix directory sync (fileutil.SyncDirectory opens the directory and fsyncs it): a no-op in the
+	// process-crash model; the power-loss harnesses wrap it in their operation tables.
+	eng.intrinsics["github.com/pdfcpu/pdfcpu/internal/fileutil.SyncDirectory"] = func(e *Exec, fr *frame, fn *ssa.Function, args []Value) Value {
+		return Iface{}
+	}
+	eng.intrinsics["path/filepath.Abs"] = func(e *Exec, fr *frame, fn *ssa.Function, args []Value) Value {
+		s := strArg(e, fr, args[0])
+		r := e.callSSA(fr, e.eng.stdFunc(rtPath, "VAbs"), []Value{mkStr(s)}, nil)
+		return Tuple{r, Iface{}}
+	}
+}
